@@ -202,7 +202,8 @@ Definition src_at (tr : trace) (k : nat) : Z := fold_left (fun acc te => src_upd
 Definition opstart_names : list string := ["detach"; "protect"; "assign"; "clear"; "copy"; "publish"].
 Definition is_opstart (e : ev) : bool := match e with EvCli n _ => existsb (String.eqb n) opstart_names | _ => false end.
 Definition resp_names' : list string :=
-  ["attached"; "skip"; "detached"; "protected"; "assigned"; "cleared"; "unlinked"; "retired"; "scanned"; "touch"; "copied"].
+  ["attached"; "skip"; "detached"; "protected"; "assigned"; "cleared"; "unlinked"; "retired"; "scanned"; "touch"; "copied";
+   "g_src"].   (* the exchange of a publish ends that operation: "unlinked" follows in the same step *)
 Definition is_resp' (e : ev) : bool :=
   match e with
   | EvAcc KBegin _ _ => true
@@ -252,14 +253,18 @@ Definition last_te (tr : trace) : option (nat * ev) := nth_error tr (List.length
 Definition ev_ok (pre : trace) (u : nat) (e : ev) : Prop :=
   (forall r j x, e = ev_slot r j x ->
      att_at pre u = Some r /\ exists e0, open_op pre u = Some e0 /\ rel_b j e0 = true) /\
-  (forall r, e = ev_det r -> open_op pre u = Some (EvCli "detach" [])) /\
+  (forall z, e = EvCli "g_det" [z] -> open_op pre u = Some (EvCli "detach" [])) /\
   (forall r, e = ev_att r -> att_at pre u = None /\ forall t', att_at pre t' <> Some r) /\
   (forall k o old, e = EvCli "g_src" [zn k; o; old] ->
      old = src_at pre k /\ open_op pre u = Some (EvCli "publish" [zn k; o])) /\
   (forall k x, e = EvCli "g_ld" [zn k; x] -> x = src_at pre k) /\
   (forall old, e = EvCli "unlinked" [old] ->
      exists k o, pre <> [] /\ last_te pre = Some (u, EvCli "g_src" [zn k; o; old])) /\
-  (forall j p, e = EvCli "protected" [zn j; p] -> exists r k, val_pat pre u r j p (Some k)).
+  (forall j p, e = EvCli "protected" [zn j; p] -> exists r k, val_pat pre u r j p (Some k)) /\
+  (forall z, e = EvCli "g_att" [z] -> exists r, z = zn r).
+
+Lemma ev_ok_att_wf pre u z : ev_ok pre u (EvCli "g_att" [z]) -> exists r, z = zn r.
+Proof. intros H. apply H. reflexivity. Qed.
 
 Definition TrOK (tr : trace) : Prop := forall i u e, nth_error tr i = Some (u, e) -> ev_ok (firstn i tr) u e.
 
